@@ -63,6 +63,9 @@ func main() {
 	case "mworker":
 		mWorkerMain()
 		return
+	case "c16worker": // C16 protocol-level event time, one case per process (c16_proto.go)
+		c16WorkerMain()
+		return
 	case "c11worker": // C11 deterministic schedule replay, one schedule per process (c11_conc.go)
 		c11WorkerMain()
 		return
